@@ -34,13 +34,14 @@ const canaryVal = 0xA5A5A5A5A5A5A5A5
 type intRW struct {
 	read func(bs []byte) sx
 	rt   func(v int64) sx
+	skip func(bs []byte) sx
 }
 
 func mkIntRW[N int | int16 | int32 | int64]() intRW {
 	c, err := builtCodec[N]()
 	if err != nil {
 		f := T_("build-error")
-		return intRW{read: func([]byte) sx { return f }, rt: func(int64) sx { return f }}
+		return intRW{read: func([]byte) sx { return f }, rt: func(int64) sx { return f }, skip: func([]byte) sx { return f }}
 	}
 	pat := N(0x5A5A)
 	fresh := func() *canary[N] {
@@ -52,6 +53,13 @@ func mkIntRW[N int | int16 | int32 | int64]() intRW {
 		return d.Pre == canaryVal && d.Post == canaryVal && d.B == pat
 	}
 	return intRW{
+		skip: func(bs []byte) sx {
+			r := avro.NewReadBuf(bs)
+			if err := c.Skip(r); err != nil {
+				return errSx
+			}
+			return T("ok", I(int64(r.Len())))
+		},
 		read: func(bs []byte) sx {
 			dst := fresh()
 			r := avro.NewReadBuf(bs)
@@ -118,6 +126,8 @@ func newExecC17() func(op string, args []sx) sx {
 			return H(w.Bytes())
 		case "int-r":
 			return get(a[0].atom).read(a[1].bytes())
+		case "int-s":
+			return get(a[0].atom).skip(a[1].bytes())
 		case "int-rt":
 			return get(a[0].atom).rt(a[1].int())
 		case "intk-rt": // Go `int` kind
@@ -216,6 +226,7 @@ func genC17(c *ctx) {
 		bs := refVarint(v)
 		for _, w := range []int64{16, 32, 64} {
 			c.emit(T("int-r", I(w), H(bs)))
+			c.emit(T("int-s", I(w), H(bs)))
 		}
 	}
 	// ... every int16 value through write+read of the built int16 codec (exhaustive) ...
@@ -240,13 +251,16 @@ func genC17(c *ctx) {
 	// ... all byte strings of length <= 1 into each width, all of length 2 into int16 (exhaustive) ...
 	for _, w := range []int64{16, 32, 64} {
 		c.emit(T("int-r", I(w), H(nil)))
+		c.emit(T("int-s", I(w), H(nil)))
 		for a := 0; a < 256; a++ {
 			c.emit(T("int-r", I(w), H([]byte{byte(a)})))
+			c.emit(T("int-s", I(w), H([]byte{byte(a)})))
 		}
 	}
 	for a := 0; a < 256; a++ {
 		for b := 0; b < 256; b++ {
 			c.emit(T("int-r", I(16), H([]byte{byte(a), byte(b)})))
+			c.emit(T("int-s", I(16), H([]byte{byte(a), byte(b)})))
 		}
 	}
 	// ... random candidate varints of length <= 11, biased to long continuation runs
@@ -264,6 +278,7 @@ func genC17(c *ctx) {
 			}
 		}
 		c.emit(T("int-r", I([]int64{16, 32, 64}[c.rng.Intn(3)]), H(bs)))
+		c.emit(T("int-s", I([]int64{16, 32, 64}[c.rng.Intn(3)]), H(bs)))
 	}
 	// 3. floats: specials, sub-normals, NaN payloads, random patterns
 	f32s := []uint32{0, 0x80000000, 0x3f800000, 0xbf800000, 0x7f800000, 0xff800000, 0x7fc00000, 0x7fa00001, 0xffc12345,
